@@ -396,7 +396,7 @@ func goEpilogue(s *Spec, o RenderOpts) string {
 		}
 		return b.String()
 	}
-	b.WriteString("var HookNext func(int) (int, int)\nvar HookRec func(int)\n\nfunc Rec(r int) { HookRec(r) }\n\n")
+	b.WriteString("var HookNext func(string, int) (int, int)\nvar HookRec func(int)\n\nfunc Rec(r int) { HookRec(r) }\n\n")
 	// the value the parser hands to the lexer is reported to the environment before it is overwritten:
 	// at the first token of a parse it must not carry anything over from an earlier parse
 	incoming := "0"
@@ -406,7 +406,7 @@ func goEpilogue(s *Spec, o RenderOpts) string {
 			break
 		}
 	}
-	b.WriteString("func GetToken(input string, val *ValType, pos *int) int {\n\tidx, v := HookNext(" + incoming + ")\n\t_ = v\n\t*val = ValType{}\n\tswitch idx {\n\tcase -1:\n\t\treturn " + goEOF(s) + "\n\tcase -2:\n\t\treturn v\n")
+	b.WriteString("func GetToken(input string, val *ValType, pos *int) int {\n\tidx, v := HookNext(input, " + incoming + ")\n\t_ = v\n\t*val = ValType{}\n\tswitch idx {\n\tcase -1:\n\t\treturn " + goEOF(s) + "\n\tcase -2:\n\t\treturn v\n")
 	b.WriteString(goTokenCases(s))
 	b.WriteString("\t}\n\treturn -1\n}\n\n")
 	st := startTag(s)
@@ -417,11 +417,11 @@ func goEpilogue(s *Spec, o RenderOpts) string {
 	if o.Variant.Object {
 		b.WriteString("func VNew() interface{} { return MakeParserContext() }\n")
 		b.WriteString("func VInit(c interface{}) { c.(*Context).ParserInit() }\n")
-		b.WriteString("func VParse(c interface{}) (interface{}, bool) {\n\tr := c.(*Context).Parser(\"\")\n\tif r == nil {\n\t\treturn nil, false\n\t}\n\treturn " + ret + ", true\n}\n")
+		b.WriteString("func VParse(c interface{}, input string) (interface{}, bool) {\n\tr := c.(*Context).Parser(input)\n\tif r == nil {\n\t\treturn nil, false\n\t}\n\treturn " + ret + ", true\n}\n")
 	} else {
 		b.WriteString("func VNew() interface{} { return nil }\n")
 		b.WriteString("func VInit(c interface{}) { ParserInit() }\n")
-		b.WriteString("func VParse(c interface{}) (interface{}, bool) {\n\tr := Parser(\"\")\n\tif r == nil {\n\t\treturn nil, false\n\t}\n\treturn " + ret + ", true\n}\n")
+		b.WriteString("func VParse(c interface{}, input string) (interface{}, bool) {\n\tr := Parser(input)\n\tif r == nil {\n\t\treturn nil, false\n\t}\n\treturn " + ret + ", true\n}\n")
 	}
 	b.WriteString("func VConsts() map[string]int {\n\treturn map[string]int{\n")
 	if s.EOFAlias != "" {
